@@ -313,6 +313,7 @@ def run(ck):
     results = col.run()
     nfalse = 0
     agree = 0
+    worst_by = {}
     worst_coq = 0.0
     bound_ratio = 0.0
     by_kind = {}
@@ -327,8 +328,10 @@ def run(ck):
         bad = [n for n, f in zip(names, flags) if not f]
         if len(nums) >= 2:
             w, tl = dy_val(nums[0]), dy_val(nums[1])
-            if tl > 0:
-                worst_coq = max(worst_coq, w / tl) if meta['ckind'] in ('solve', 'resid', 'lin') and not bad else worst_coq
+            if tl > 0 and not bad:
+                worst_coq = max(worst_coq, w / tl) if meta['ckind'] in ('solve', 'resid', 'lin') else worst_coq
+                kk = meta['ckind'] + ('/direct' if meta['ckind'] == 'solve' and not meta['var'].lin else '')
+                worst_by[kk] = max(worst_by.get(kk, 0.0), w / tl)
         if len(nums) >= 5 and not bad:
             # uniqueness: |u - v| (1 - delta) <= beta * 2 tol
             dist, delta, beta, tl = dy_val(nums[2]), dy_val(nums[3]), dy_val(nums[4]), dy_val(nums[1])
@@ -354,6 +357,7 @@ def run(ck):
     ck.cov['certificates_by_kind'] = by_kind
     ck.cov['certificates_rejected_where_oracle_also_failed'] = agree
     ck.cov['coq_worst_residual_over_cert_tol'] = worst_coq
+    ck.cov['coq_worst_residual_over_cert_tol_by_kind'] = worst_by
     ck.cov['uniqueness_worst_dist_over_bound'] = bound_ratio
     ck.cov['tolerances'] = {'coq_rtol': 2.0 ** RTOL_EXP, 'cfg_slack': CFG_SLACK, 'ulp_slack': ULP_SLACK, 'split_rtol': SPLIT_RTOL, 'exact_rtol': EXACT_RTOL}
     ck.cov['solve_stats'] = stats
@@ -747,7 +751,8 @@ def _exact_solutions(ck, classes, rng, thorough, violate):
                 if not err <= EXACT_RTOL * mag:
                     violate('%s: d/dt u_exact(t) differs from eval_f(u_exact(t), t) by %.3e at t=%g (scale %.3e)' % (eid, err, t, mag),
                             {'class': e['key'], 'params': repr(e['params']), 't': t, 'h': h, 'defect': err, 'scale': mag},
-                            {'kind': 'exact-solution-derivative', 'class': e['key'], 'variant': e['label']}, ('exact', e['key']))
+                            {'kind': 'exact-solution-derivative', 'class': e['key'], 'variant': e['label'], 'ndim': int(np.asarray(ue).ndim)},
+                            ('exact', e['key'], int(np.asarray(ue).ndim)))
         except Exception as ex:
             violate('%s: closed-form solution check raised %s: %s' % (eid, type(ex).__name__, ex), {'class': e['key'], 'params': repr(e['params'])},
                     {'kind': 'exact-solution-exception', 'class': e['key'], 'variant': e['label']}, ('exact-exc', eid))
